@@ -12,6 +12,7 @@ import (
 	"strings"
 	"sync"
 	"testing"
+	"time"
 
 	"github.com/0chain/common/core/logging"
 	"go.uber.org/zap"
@@ -519,6 +520,87 @@ func TestHandlers(t *testing.T) {
 			}
 			check("at the end")
 			ev.Case(fmt.Sprintf("handlers/%s/%d", s.name, counts[si]), counts[si] > logging.BufferSize, "http-handlers")
+		}
+	})
+}
+
+// Long runs and indistinguishable-looking entries.
+// (1) totals around 2^16 and 2^17 writes (64 and 128 laps of the ring): the most recent 1024 must come back.
+// (2) bursts of entries that have the same message, the same timestamp and the same number of fields and differ only in
+// a field value (a hot loop logging "item processed" with a coarse clock): every one of them is an entry of its own.
+func TestLongRunsAndLookalikes(t *testing.T) {
+	ev.Guard(t, "TestLongRunsAndLookalikes", func() {
+		seed := ev.SeedFor("TestLongRunsAndLookalikes")
+		totals := []int{65535, 65536, 65537, 65536 + 46, 65536 + 1023, 65536 + 1024, 131072, 131072 + int(seed%1000)}
+		if !ev.Thorough() {
+			totals = []int{65536, 65536 + 1 + int(seed%1022), 131072 + int(seed%1000)}
+		}
+		for _, total := range totals {
+			ml := newLogger()
+			root := ml.GetCore()
+			derived := root.With([]zapcore.Field{zap.String("who", "derived")})
+			for i := 1; i <= total; i++ {
+				c := root
+				if i%5 == 0 {
+					c = derived
+				}
+				if err := c.Write(zapcore.Entry{Level: zapcore.InfoLevel, Message: strconv.Itoa(i)}, nil); err != nil {
+					t.Fatalf("Write: %v", err)
+				}
+				if i == total-1500 {
+					_ = ml.GetLogs() // a read somewhere before the end
+				}
+			}
+			if d := diff(messages(ml), expect(total)); d != "" {
+				t.Fatalf("after %d writes to one buffer: %s", total, d)
+			}
+			ev.Case(fmt.Sprintf("long-run/%d", total), true, "long-run-64+-laps")
+		}
+		stamp := time.Unix(1700000000, 0)
+		for _, n := range []int{2, 7, 200, 1024, 1500} {
+			ml := newLogger()
+			root := ml.GetCore()
+			derived := root.With([]zapcore.Field{zap.String("who", "derived")})
+			if err := root.Write(zapcore.Entry{Level: zapcore.InfoLevel, Message: "first", Time: stamp}, nil); err != nil {
+				t.Fatalf("Write: %v", err)
+			}
+			for i := 1; i <= n; i++ {
+				c := root
+				if (uint64(i)+seed)%4 == 0 {
+					c = derived
+				}
+				if err := c.Write(zapcore.Entry{Level: zapcore.InfoLevel, Message: "item processed", Time: stamp}, []zapcore.Field{zap.Int("i", i)}); err != nil {
+					t.Fatalf("Write: %v", err)
+				}
+			}
+			var got []string
+			for _, e := range ml.GetLogs() {
+				switch {
+				case e == nil:
+					got = append(got, "<nil>")
+				case e.Message == "first":
+					got = append(got, "first")
+				default:
+					v := "?"
+					for _, f := range e.Context {
+						if f.Key == "i" {
+							v = strconv.FormatInt(f.Integer, 10)
+						}
+					}
+					got = append(got, v)
+				}
+			}
+			var want []string
+			for i := n; i >= 1 && len(want) < logging.BufferSize; i-- {
+				want = append(want, strconv.Itoa(i))
+			}
+			if len(want) < logging.BufferSize {
+				want = append(want, "first")
+			}
+			if d := diff(got, want); d != "" {
+				t.Fatalf("%d entries with equal message, time and field count (field value = sequence number): %s", n, d)
+			}
+			ev.Case(fmt.Sprintf("lookalikes/%d", n), true, "lookalike-entries")
 		}
 	})
 }
